@@ -227,6 +227,12 @@ def run(c):
     r = c.mc('MC_Limiter', c04.mc_cfg('MCConfigsCond', threads=1, maxnow=4, hits=4), label='conditions, graph',
              dump=True, coverage=False)
     c04.replay_sequential(c, r.graph, 150 if quick else 10000, rng, wd)
+    # the same gate with a wall clock that may be set back between the hits (Limiter!SetBack): a rejected hit is still
+    # free, a condition that holds is still honoured when the limits allow; walked and replayed like the ideal graph
+    cfg = c04.mc_cfg('MCConfigsCond', threads=1, maxnow=3 if quick else 4, hits=4)
+    cfg['next_'] = 'NextSetBack'
+    rb = c.mc('MC_Limiter', cfg, label='conditions, clock set back, graph', dump=True, coverage=False)
+    c04.replay_sequential(c, rb.graph, 60 if quick else 3000, rng, wd)
     cfgs = sorted((to_json(r.graph.states[s]['cfg']) for s in r.graph.init), key=str)
     traces, meta = [], []
     for i in range(15 if quick else 1000):
